@@ -50,7 +50,7 @@ theorem pumpInv_of_view {e e' : Ep} (h : e'.pumpView = e.pumpView) (hi : PumpInv
 
 theorem pumpInv_sendMessage (e : Ep) (m : Msg) (hi : PumpInv e) : PumpInv (sendMessage e m) := by
   unfold PumpInv at *
-  simp only [sendMessage, kaReset, idleReset, encodeAll_append, encodeAll, List.append_nil, hi,
+  simp only [sendMessage, sendReady, kaReset, idleReset, encodeAll_append, encodeAll, List.append_nil, hi,
     List.append_assoc]
 
 theorem pumpInv_sendContact (e : Ep) (hi : PumpInv e) : PumpInv (sendContact e) :=
@@ -112,7 +112,7 @@ theorem pumpInv_writeConn (e : Ep) (n : Nat) (up : Bool) (hi : PumpInv e) : Pump
     · exact hi
   · simp only []
     split
-    · exact pumpInv_of_view (pv_doClose e) hi
+    · exact hi
     · have key : PumpInv { e with
           connBuf := e.connBuf.drop (min n (e.connBuf.take chunkSize).length),
           accepted := e.accepted ++ (e.connBuf.take chunkSize).take (min n (e.connBuf.take chunkSize).length) } := by
@@ -295,7 +295,9 @@ theorem pumpInv_step (e : Ep) (ev : Ev) (hi : PumpInv e) : PumpInv (step e ev).1
     simp only []
     split
     · exact hi
-    · exact pumpInv_pump _ _ hi
+    · split
+      · exact hi
+      · exact pumpInv_of_view rfl (pumpInv_pump _ _ (pumpInv_of_view (e := e) rfl hi))
   | rx c =>
     simp only []
     split
